@@ -341,16 +341,77 @@ def random_graphs(ctx, sut):
                               (0, name) if name else None)
 
 
+def anonymous_cycles(ctx, sut):
+    """Plain (non-class) elements that contain themselves, built by assignment as the documentation builds
+    recursive models: no object class depends on itself, so the classes behind them are ordered as usual - the
+    walk must terminate on the element cycle."""
+    shapes = ["array_anyof", "array_tuple", "element_additional", "not_not", "array_contains"]
+    for number, shape in enumerate(shapes):
+        if number % ctx.nshards != ctx.shard:
+            continue
+        leaf = sut.ObjectMeta("Leaf", (sut.Object,), sut_classdict(sut))
+        if shape == "array_anyof":
+            loop = sut.Array(sut.Integer())
+            loop.items = sut.AnyOf(sut.Integer(), leaf, loop)
+        elif shape == "array_tuple":
+            loop = sut.Array([sut.String()])
+            loop.items = [sut.String(), leaf, loop]
+        elif shape == "element_additional":
+            loop = sut.Element(properties={"leaf": sut.Property(leaf)})
+            loop.additionalProperties = loop
+        elif shape == "not_not":
+            loop = sut.Element(contains=leaf)
+            loop.propertyNames = sut.Not(sut.Not(loop))
+        else:
+            loop = sut.Array(leaf)
+            loop.contains = sut.AllOf(loop, sut.Element())
+        root = sut.ObjectMeta("Grid", (sut.Object,), sut_classdict(sut))
+        root.properties["cells"] = sut.Property(loop)
+        ctx.evaluation()
+        ctx.count("anonymous_cycles")
+        case = {"anonymous_cycle": shape}
+        for entry in ([root], [loop, root]):
+            try:
+                order = [cls.__name__ for cls in sut.orderer(*entry)]
+            except BaseException as err:  # pylint: disable=broad-except
+                if isinstance(err, (KeyboardInterrupt, SystemExit)):
+                    raise
+                ctx.witness("acyclic_refused", case, f"no class depends on itself, yet the orderer raised "
+                                                     f"{type(err).__name__}: {err!r}"[:300])
+                break
+            wanted = ["Leaf", "Grid"] if entry[0] is root else None
+            if (wanted and order != wanted) or sorted(order) != ["Grid", "Leaf"] or order.index("Leaf") > order.index("Grid"):
+                ctx.witness("bad_order", case, f"expected Leaf before Grid, each once; got {order}")
+                break
+
+
+def wide_graph(ctx, sut):
+    """Very many classes with nothing between them but one root (sibling members of one document): the number
+    of classes must not be bounded by the interpreter's stack."""
+    if ctx.shard != 0:
+        return
+    count = ctx.params.get("wide", 1200)
+    edges = [(0, i) for i in range(1, count)]
+    ctx.count("wide_graphs")
+    run_graph(ctx, sut, count, edges, ["properties"] * len(edges), [0], "wide")
+
+
 def run_shard(ctx):
     from vlib import sut  # pylint: disable=import-outside-toplevel
 
     exhaustive(ctx, sut)
     random_graphs(ctx, sut)
+    anonymous_cycles(ctx, sut)
+    wide_graph(ctx, sut)
 
 
 def replay(case, ctx):
     from vlib import sut  # pylint: disable=import-outside-toplevel
 
+    if "anonymous_cycle" in case:
+        ctx.shard, ctx.nshards = 0, 1
+        anonymous_cycles(ctx, sut)
+        return
     wrapper = tuple(case["root_wrapper"]) if case.get("root_wrapper") else None
     run_graph(ctx, sut, case["classes"], [tuple(e) for e in case["edges"]], case["placements"],
               case["roots"], "replay", wrapper)
